@@ -240,6 +240,36 @@ def check(ctx: Ctx) -> str:
         cs = [c for c in astq.calls(vf.node) if astq.callee(c) in ("self.blockvisit", "self.visit") and len(c.args) == 2 and ast.unparse(c.args[1]) == fr]
         ctx.check(bool(cs) and all(ast.unparse(c.args[0]) in (field, "node.target") for c in cs), f"for_use:{fr}", "compiler:CodeGenerator.visit_For", f"{fr} visits {field}", f"{fr} must be used to visit {field} (and the loop target)", vf.loc())
 
+    ctx.rule("R9", "(skeletons) every loop iteration is a fresh scope: in each visit_For skeleton the body frame's name initialisation (enter_frame) and `_loop_vars = {}` are emitted inside the `for` statement that iterates, once, before the body")
+    nfor = 0
+    for p, sk in res["visit_For"]:
+        if p.outcome != "normal" or sk.error:
+            continue
+        lines = sk.text.splitlines()
+        lv = [i for i, ln in enumerate(lines) if ln.strip() == "_loop_vars = {}"]
+        if not lv:
+            continue
+        nfor += 1
+        ok = len(lv) == 1
+        why = f"{len(lv)} `_loop_vars = {{}}` lines"
+        if ok:
+            i = lv[0]
+            ind = len(lines[i]) - len(lines[i].lstrip())
+            hdr = next((j for j in range(i - 1, -1, -1) if len(lines[j]) - len(lines[j].lstrip()) < ind), None)
+            is_for = hdr is not None and lines[hdr].strip().startswith(("for ", "async for "))
+            between = [ln.strip() for ln in lines[(hdr or 0) + 1:i]]
+            enters = [j for j, ln in enumerate(lines) if ln.strip() == "pass  # enter_frame"]
+            inside = [j for j in enters if hdr is not None and hdr < j < i]
+            # the loop-filter function has its own enter_frame; apart from that one, none may precede the header
+            filt = [j for j in enters if hdr is not None and j < hdr and any(lines[k].strip().startswith(("def t_", "async def t_")) for k in range(j - 1, max(j - 3, -1), -1))]
+            stray = [j for j in enters if hdr is not None and j < hdr and j not in filt]
+            ok = bool(is_for and len(inside) == 1 and not stray and all(b == "pass  # enter_frame" for b in between))
+            why = f"header `{lines[hdr].strip() if hdr is not None else None}`, enter_frame inside the loop: {len(inside)}, before the loop: {len(stray)}, other statements before the scope setup: {[b for b in between if b != 'pass  # enter_frame']}"
+        ctx.check(ok, f"for-scope:{nfor}", "compiler:CodeGenerator.visit_For", "loop body scope not set up per iteration",
+                  f"visit_For [{short_flags(p, 6)}]: {why} - names assigned in one iteration stay bound in the next one (`{{% set n = n + x %}}` accumulates, a set under `loop.first` is visible in later iterations)\n{sk.text[:400]}", "src/jinja2/compiler.py",
+                  detail={"flags": short_flags(p, 6)} if nfor == 1 else None)
+    ctx.floor("visit_For skeletons with a body", nfor, 20)
+
     ctx.rule("R3", "assignment tracking is balanced: every path of visit_Assign / visit_AssignBlock pushes once and pops once, push first")
     for entry in ("visit_Assign", "visit_AssignBlock"):
         ok = True
@@ -278,6 +308,20 @@ def check(ctx: Ctx) -> str:
             good = "if not isinstance(" in t_ and ", Namespace):" in t_ and "raise TemplateRuntimeError" in t_ and t_.index("Namespace") < t_.rindex(" = ")
             ctx.check(good, f"nsguard:{short_flags(p, 3)}", "compiler:CodeGenerator.visit_Assign", "namespace guard", f"an assignment with a namespace reference is compiled without the Namespace check:\n{t_[:200]}", "src/jinja2/compiler.py")
     ctx.need(ok_any, "no visit_Assign path with an NSRef found")
+    # the guard is emitted per distinct reference: the emitting loop runs over *all* NSRef
+    # nodes and may only skip one already seen (continue) - an early exit leaves the
+    # remaining targets unguarded, and `{% set ns.a, ns.b, d.x = ... %}` then stores into a
+    # plain dict of the render data
+    va = repo.func("compiler:CodeGenerator.visit_Assign")
+    loops = [n_ for n_ in ast.walk(va.node) if isinstance(n_, ast.For) and "NSRef" in ast.unparse(n_.iter)]
+    ctx.need(len(loops) == 1, "visit_Assign: loop over the NSRef targets not found")
+    exits = [n_ for n_ in ast.walk(loops[0]) if isinstance(n_, (ast.Break, ast.Return))]
+    raises_ = [n_ for n_ in ast.walk(loops[0]) if isinstance(n_, ast.Raise)]
+    ctx.check(not exits and not raises_ and not loops[0].orelse, "nsguard:all-targets", "compiler:CodeGenerator.visit_Assign", f"guard loop leaves early ({[type(e).__name__ for e in exits + raises_]})",
+              "the loop emitting the Namespace check stops before all dotted targets were handled: later targets are assigned without the check, so an attribute assignment reaches a non-namespace object from the render data", va.loc(loops[0]))
+    conts = [n_ for n_ in ast.walk(loops[0]) if isinstance(n_, ast.Continue)]
+    okc = all([g for g, pol in astq.guard_texts(loops[0], c_) if pol] in (["nsref.name in seen_refs"],) for c_ in conts)
+    ctx.check(okc, "nsguard:skip-only-seen", "compiler:CodeGenerator.visit_Assign", "skips only references already checked", "a reference may be skipped only because its check was already emitted", va.loc(loops[0]))
     for p, sk in res["visit_NSRef"]:
         ctx.check("[" in sk.text and "." not in sk.text.strip(), "nsref:item", "compiler:CodeGenerator.visit_NSRef", "item store", f"visit_NSRef must emit ref[attr], got {sk.text.strip()}", "src/jinja2/compiler.py")
     ns = repo.cls("utils:Namespace")
